@@ -579,3 +579,133 @@ def t1e(ctx):
         deciding_probes(ctx, prog.one(impl), impl, 4,
                         'the probe does not take part in the answer, so the engine and the Python '
                         'twin classify some class differently')
+
+
+T10_FAMILIES = {
+    'namedtuple': {'cls': 'IsNamedTupleClass', 'inst': 'IsNamedTupleInstance', 'either': 'IsNamedTuple',
+                   'py_cls': 'is_namedtuple_class', 'py_inst': 'is_namedtuple_instance', 'py_either': 'is_namedtuple',
+                   'fields': ('namedtuple_fields', 'NamedTupleGetFields')},
+    'structseq': {'cls': 'IsStructSequenceClass', 'inst': 'IsStructSequenceInstance', 'either': 'IsStructSequence',
+                  'py_cls': 'is_structseq_class', 'py_inst': 'is_structseq_instance', 'py_either': 'is_structseq',
+                  'fields': ('structseq_fields', 'StructSequenceGetFields')},
+}
+
+
+@rule('T10', floor=20, title='the instance / either forms of the class recognisers ask the class recogniser of their own family about the right class')
+def t10(ctx):
+    """`is_X_instance(obj)` is `is_X_class(type(obj))`, `is_X(obj)` is `is_X_class(obj if obj is a
+    class else type(obj))`, in the engine and in the Python twin; the `_C` names are bound to the
+    engine function of the same family and form; the metaclass hooks of `optree.typing.structseq`
+    hand on their second parameter (the candidate), not the stub class itself.  Classification of
+    every node (GetKind) goes through the instance forms."""
+    prog = ctx.cxx()
+    pkg = ctx.py()
+    from ..bridge import binding_table
+    from .common import strip_casts
+    tab = binding_table(prog)
+    mod = pkg.mod('optree.typing')
+    for fam, t in sorted(T10_FAMILIES.items()):
+        # bindings
+        for pyname, cxx in ((t['py_cls'], t['cls']), (t['py_inst'], t['inst']), (t['py_either'], t['either']),
+                            t['fields']):
+            b = tab.get(('module', pyname))
+            ctx.check('_C.%s/bound' % pyname, b is not None and b.target == cxx,
+                      '_C.%s is bound to %s' % (pyname, cxx),
+                      '_C.%s is bound to %s, not to %s: the Python name answers another question than it says'
+                      % (pyname, b.target if b is not None else None, cxx), b.node.loc if b is not None and b.node is not None else None)
+        # engine: instance form
+        f = prog.one(t['inst'])
+        p0 = f.params[0][0]
+        rets = [r for r in f.body.walk() if r.kind == 'ReturnStmt' and r.kids]
+        ok = False
+        if len(rets) == 1:
+            c = strip_casts(rets[0].kids[0])
+            if c is not None and c.kind in CALL_KINDS and c.callee_name() == t['cls'] and len(c.call_args()) == 1:
+                a = strip_casts(c.call_args()[0])
+                ok = a is not None and a.kind in CALL_KINDS and a.callee_name() in ('handle_of', 'of') and \
+                    len(a.call_args()) == 1 and member_path(strip_casts(a.call_args()[0])) == p0
+        ctx.check('%s/asks-the-class-of-the-object' % t['inst'], ok,
+                  '%s(obj) is %s(type of obj)' % (t['inst'], t['cls']),
+                  '%s does not return %s(py::type::handle_of(%s)): instances are classified by something '
+                  'other than their exact class' % (t['inst'], t['cls'], p0), f.loc)
+        # engine: either form
+        f = prog.one(t['either'])
+        p0 = f.params[0][0]
+        rets = [r for r in f.body.walk() if r.kind == 'ReturnStmt' and r.kids]
+        ok = False
+        if len(rets) == 1:
+            c = strip_casts(rets[0].kids[0])
+            if c is not None and c.kind in CALL_KINDS and c.callee_name() == t['cls'] and len(c.call_args()) == 1:
+                a = strip_casts(c.call_args()[0])
+                if a is not None and a.kind == 'DeclRefExpr':
+                    for v in f.body.find('VarDecl'):
+                        if v.name == member_path(a) and v.kids:
+                            a = strip_casts(v.kids[-1])
+                while a is not None and a.kind in CTOR_KINDS and len(a.kids) == 1:
+                    a = strip_casts(a.kids[0])
+                if a is not None and a.kind == 'ConditionalOperator' and len(a.kids) == 3:
+                    cond, pos = unnegate(a.kids[0])
+                    yes, no = (a.kids[1], a.kids[2]) if pos else (a.kids[2], a.kids[1])
+                    is_type_test = cond is not None and cond.kind in CALL_KINDS and \
+                        cond.callee_name() in ('PyType_Check', 'isinstance') and p0 in cond.text(5)
+                    y, n_ = strip_casts(yes), strip_casts(no)
+                    while y is not None and y.kind in CTOR_KINDS and len(y.kids) == 1:
+                        y = strip_casts(y.kids[0])
+                    while n_ is not None and n_.kind in CTOR_KINDS and len(n_.kids) == 1:
+                        n_ = strip_casts(n_.kids[0])
+                    ok = is_type_test and member_path(y) == p0 and n_ is not None and n_.kind in CALL_KINDS and \
+                        n_.callee_name() in ('handle_of', 'of') and \
+                        member_path(strip_casts(n_.call_args()[0])) == p0
+        ctx.check('%s/class-or-class-of' % t['either'], ok,
+                  '%s(obj) is %s(obj if obj is a class else type of obj)' % (t['either'], t['cls']),
+                  '%s does not return %s(<%s if it is a class, else its type>)' % (t['either'], t['cls'], p0), f.loc)
+        # Python twins
+        fi = mod.func(t['py_inst'])
+        pi = (fi.args.posonlyargs + fi.args.args)[0].arg
+        rs = [r for r in walk(fi) if isinstance(r, ast.Return)]
+        ok = len(rs) == 1 and pmatch(rs[0], 'return %s(type(?o))' % t['py_cls'], {'o': pi}) is not None
+        ctx.check('typing.%s/asks-the-class-of-the-object' % t['py_inst'], ok,
+                  '%s(obj) is %s(type(obj))' % (t['py_inst'], t['py_cls']),
+                  '%s does not return %s(type(%s))' % (t['py_inst'], t['py_cls'], pi), mod.loc(fi))
+        fe = mod.func(t['py_either'])
+        pe = (fe.args.posonlyargs + fe.args.args)[0].arg
+        rs = [r for r in walk(fe) if isinstance(r, ast.Return)]
+        ok = len(rs) == 1 and (
+            pmatch(rs[0], 'return %s(?o if isinstance(?o, type) else type(?o))' % t['py_cls'], {'o': pe}) is not None)
+        if not ok and len(rs) == 1:
+            # through a local: cls = obj if isinstance(obj, type) else type(obj); return f(cls)
+            for s_ in walk(fe):
+                e = pmatch(s_, '?c = ?o if isinstance(?o, type) else type(?o)', {'o': pe})
+                if e is not None and pmatch(rs[0], 'return %s(?c)' % t['py_cls'], e) is not None:
+                    ok = True
+        ctx.check('typing.%s/class-or-class-of' % t['py_either'], ok,
+                  '%s(obj) is %s(obj if isinstance(obj, type) else type(obj))' % (t['py_either'], t['py_cls']),
+                  '%s does not return %s(<%s if it is a class, else its type>)' % (t['py_either'], t['py_cls'], pe),
+                  mod.loc(fe))
+    # the metaclass hooks of the structseq stub hand on the candidate
+    meta = [c for c in mod.tree.body if isinstance(c, ast.ClassDef) and c.name == 'StructSequenceMeta']
+    ctx.require(len(meta) == 1, 'optree.typing: class StructSequenceMeta not found')
+    for hook, accepted in (('__subclasscheck__', ('return is_structseq_class(?x)',)),
+                           ('__instancecheck__', ('return is_structseq_instance(?x)',
+                                                  'return is_structseq_class(type(?x))'))):
+        ms = [m_ for m_ in meta[0].body if isinstance(m_, ast.FunctionDef) and m_.name == hook]
+        ctx.require(len(ms) == 1, 'StructSequenceMeta.%s not found' % hook)
+        m_ = ms[0]
+        ps = [a.arg for a in m_.args.posonlyargs + m_.args.args]
+        rs = [r for r in walk(m_) if isinstance(r, ast.Return)]
+        ok = len(ps) == 2 and len(rs) == 1 and any(pmatch(rs[0], pat, {'x': ps[1]}) is not None for pat in accepted)
+        ctx.check('typing.StructSequenceMeta.%s/hands-on-the-candidate' % hook, ok,
+                  'StructSequenceMeta.%s asks about its second parameter (the candidate)' % hook,
+                  'StructSequenceMeta.%s does not return %s with the candidate `%s`: isinstance / issubclass '
+                  'against optree.typing.structseq answer about the stub class itself'
+                  % (hook, ' or '.join(a.replace('?x', 'candidate')[7:] for a in accepted), ps[1] if len(ps) > 1 else '?'),
+                  mod.loc(m_))
+    # classification goes through the instance forms, on the object being classified
+    for f in [x for x in prog.by_suffix('PyTreeTypeRegistry::GetKind') if not x.dependent]:
+        p0 = f.params[0][0]
+        for nm in ('IsStructSequenceInstance', 'IsNamedTupleInstance'):
+            cs = calls_in(f.body, {nm})
+            ok = len(cs) == 1 and member_path(strip_casts(cs[0].call_args()[0])) == p0
+            ctx.check('%s/%s' % (short(f), nm), ok,
+                      '%s classifies the object with %s(%s)' % (inst(f), nm, p0),
+                      '%s does not call %s on the object it classifies' % (inst(f), nm), f.loc)
